@@ -588,3 +588,23 @@ _NOTE2 = {
 }
 for _k, _v in _NOTE2.items():
     PROPS[_k]['level_note'] = PROPS[_k].get('level_note', '') + _v
+
+# additions of the fifth session (DESIGN.md 0.7: structural translator, fourth seeding round)
+_EXTRA3 = {
+ 'C01': ' The decision functions lib.View.Less and bft.BFT.SafeNode are TRANSLATED from the source on every run (gen/Extracted.v, sfunc) '
+        'and proved equal to the model\'s view_less / safe_node (proofs/BftGen.v): a change of either breaks a proof obligation before any case runs.',
+ 'C02': ' Also: the weakest k members sign and exactly (committee size - k) unused bits of the last bitmap byte are set (the count of set '
+        'bits equals the committee size under a minority of the power).',
+ 'C05': ' Also: dependent blocks - a validator / an order is created by a rightfully signed transaction and acted upon (edit-stake, unstake, '
+        'pause, edit-order, delete-order) by a later transaction of the SAME block that declares the owner\'s key under somebody else\'s signature; presented twice.',
+ 'C14': ' (collection) pieces offered one by one to the REAL AddDSE on one collection - exact duplicates, the same view and payloads under '
+        'other signer sets, fresh pieces - kept count and the REAL ProcessDSE of the collection compared with Evidence.collect (M); whoever a single '
+        'offered piece accuses must be named by the collection\'s report (V).',
+ 'C19': ' The store key constructors of fsm/key.go and checkOrderId are TRANSLATED from the source on every run (gen/ExtractedKeys.v, kfunc; '
+        'gen/Extracted.v, sfunc) and proved to be the schema of Keys.v (proofs/KeysGen.v): injectivity and prefix-freeness are theorems about the '
+        'source\'s own constructors.',
+}
+for _k, _v in _EXTRA3.items():
+    PROPS[_k]['rule'] = PROPS[_k]['rule'] + _v
+PROPS['C14']['modelled'] = PROPS['C14']['modelled'].replace('Not modelled: collection of evidence from partial certificates (addDSEByPartialQC)',
+    'AddDSE (collection with de-duplication of identical pieces: Evidence.collect). Not modelled: where the pieces come from (addDSEByPartialQC, ELECTION votes)')
